@@ -582,6 +582,46 @@ def clause8_get_walks_all(ctx, P, cg):
         raise AnalysisBroken("get_elements: peer walk not found")
 
 
+def clause9_matcher_count(ctx, P):
+    """a refused rule leaves nothing behind: the refusal path releases the matchers built so far with free_matcher(), which walks
+    matcher[0 .. number_of_matchers).  That count therefore stands BEFORE the first slot is filled: the function that allocates
+    the fetch stores it, and no function that fills slots (re)writes it afterwards"""
+    F = "struct.fetch"
+    fillers = []
+    counters = []
+    for f in P.own_functions():
+        if f.base != "fetch.c":
+            continue
+        for i in f.all_insts():
+            if i.op == "store":
+                d = P.term(f, i.a[1])
+                if Q.mentions(d, lambda x: x[0] == "field" and x[2] == F and x[3] == "matcher") and d[0] in ("index", "byteoff"):
+                    fillers.append((f, i))
+                if d[0] == "field" and d[2] == F and d[3] == "number_of_matchers":
+                    counters.append((f, i))
+    alloc = [f for f in P.own_functions() if f.base == "fetch.c" and
+             any(c.op == "call" and c.callee and P.srcname_of(c.callee) in ("cjet_calloc", "cjet_malloc") for c in f.all_insts()) and
+             any(g is f for g, _ in counters)]
+    late = []
+    for f in {g for g, _ in fillers}:
+        cs = {i.id for g, i in counters if g is f}
+        fs = {i.id for g, i in fillers if g is f}
+        if not cs:
+            continue
+        for v in Q.path_views(ctx, P, f):
+            filled = False
+            for _, i in v.insts():
+                if i.id in fs:
+                    filled = True
+                elif i.id in cs and filled and not late:
+                    late.append((f, i))
+    ctx.ob("C16.5 R-ORDER", P.fn("fetch.c:free_matcher"), "matcher-count-stands-before-slots-are-filled",
+           bool(alloc) and not late and len(fillers) >= 1,
+           ("%s() writes number_of_matchers at %s although it also fills matcher slots: until then the count is 0 and a refusal in the "
+            "middle of the rule frees none of the matchers already built" % (late[0][0].srcname, late[0][1].loc)) if late else
+           ("the function that allocates a fetch does not store number_of_matchers" if not alloc else "count stored at allocation"))
+
+
 def run(ctx):
     for cfg in ctx.configs(["default"] if ctx.tier == "quick" else None):
         P, cg = cfg.P, cfg.cg
@@ -595,3 +635,4 @@ def run(ctx):
         clause5_refusals(ctx, P, cg)
         clause6_slots(ctx, P, cg)
         clause7_bound(ctx, P, rows)
+        clause9_matcher_count(ctx, P)
